@@ -64,6 +64,15 @@ def root_place(body, place, depth=0):
         strip_deref = True
     elif rv["k"] == "cast" and rv["op"]["k"] in ("copy", "move") and ("Unsize" in rv["cast"] or "PtrToPtr" in rv["cast"] or "Pointer" in rv["cast"]):
         base = rv["op"]["place"]
+    if base is None and rv["k"] == "aggregate" and rv.get("agg") == "tuple":
+        # field i of a tuple built in place (`match (a, b) { .. }`): the i-th operand
+        proj0 = list(place.get("p", []))
+        if proj0 and proj0[0]["k"] == "field" and proj0[0]["i"] < len(rv["ops"]) and rv["ops"][proj0[0]["i"]].get("k") in ("copy", "move"):
+            b0 = rv["ops"][proj0[0]["i"]]["place"]
+            newp = {"l": b0["l"], "p": list(b0.get("p", [])) + proj0[1:]}
+            if "ty" in place:
+                newp["ty"] = place["ty"]
+            return root_place(body, newp, depth + 1)
     if base is None:
         return place
     proj = list(place.get("p", []))
@@ -464,6 +473,72 @@ def sweep_closures(prog, fn):
     return out
 
 
+ADAPTER_CALLS = ("iter::Iterator::filter", "iter::Iterator::filter_map", "iter::Iterator::map", "iter::Iterator::for_each",
+                 "iter::Iterator::inspect", "iter::Iterator::flat_map")
+CONSUMERS_COMPLETE = ("iter::Iterator::collect", "iter::Iterator::for_each", "iter::Iterator::count", "iter::Iterator::fold",
+                      "iter::Iterator::sum", "iter::Extend::extend", "Extend>::extend", "iter::Iterator::last", "iter::Iterator::max",
+                      "iter::Iterator::min", "iter::Iterator::max_by", "iter::Iterator::min_by", "iter::Iterator::max_by_key", "iter::Iterator::min_by_key")
+
+
+def adapter_closures(prog, fn):
+    """Closures of fn handed to an iterator adapter (filter / map / for_each ...).  For each: (closure body,
+    adapter name, root place of the iterated container or None, True if the chain contains a short-circuiting
+    adapter, True if the chain is consumed completely by collect/for_each/extend/fold...)."""
+    out = []
+    for b in [fn] + prog.closures_of(fn):
+        for bi, t in b.calls():
+            if not callee_is(t, *ADAPTER_CALLS) or len(t["args"]) < 2:
+                continue
+            r = op_root(b, t["args"][1])
+            d = defuse(b).single_def(r["l"]) if r is not None else None
+            if not (d and d[0] == "stmt" and d[3]["rv"].get("agg") == "closure"):
+                continue
+            cb = prog.by_did.get(d[3]["rv"]["closure_did"])
+            if cb is None:
+                continue
+            # upstream: towards the container
+            cur = t["args"][0]
+            short = False
+            src = None
+            for _ in range(10):
+                o = origin(b, cur)
+                if o[0] == "call" and o[2]["args"]:
+                    if callee_is(o[2], *SHORT_CIRCUIT_ADAPTERS):
+                        short = True
+                    rr = deep_root(b, o[2]["args"][0])
+                    if rr is not None and [e for e in rr.get("p", []) if e["k"] == "field"]:
+                        src = rr
+                    cur = o[2]["args"][0]
+                    continue
+                break
+            # downstream: the adapter's result is consumed by ...
+            complete = callee_is(t, "iter::Iterator::for_each")
+            curl = t["dest"]["l"]
+            for _ in range(10):
+                nxt = None
+                for bj, tj in b.calls():
+                    if tj["args"] and op_place(tj["args"][0]) is not None:
+                        rr = root_place(b, op_place(tj["args"][0]))
+                        if rr["l"] == curl and not rr.get("p"):
+                            nxt = tj
+                            break
+                    if len(tj["args"]) > 1 and callee_is(tj, "iter::Extend::extend", "Extend>::extend") and op_place(tj["args"][1]) is not None:
+                        rr = root_place(b, op_place(tj["args"][1]))
+                        if rr["l"] == curl and not rr.get("p"):
+                            nxt = tj
+                            break
+                if nxt is None:
+                    break
+                if callee_is(nxt, *SHORT_CIRCUIT_ADAPTERS):
+                    short = True
+                if callee_is(nxt, *CONSUMERS_COMPLETE):
+                    complete = True
+                    break
+                curl = nxt["dest"]["l"]
+            out.append((cb, (t.get("callee") or {}).get("name"), src, short, complete))
+    return out
+
+
 def sweep_stores(prog, fn, adt, field, const=None):
     """Stores to adt.field (optionally of a given constant) that happen once per element of a sweep: inside a loop
     of fn, or inside a closure run by for_each.  Returns list of (body, block)."""
@@ -482,6 +557,49 @@ def sweep_stores(prog, fn, adt, field, const=None):
             if match(s):
                 out.append((cb, bi))
     return out
+
+
+def option_some_edges(body, pred):
+    """Edges on which an Option (or Result) place whose root satisfies pred is known to be Some (Ok): a match /
+    if-let on its discriminant, `?` (Try::branch -> Continue), is_some()/is_ok(), the negative side of is_none()."""
+    from .decision import enum_switch_edges
+    out = set()
+    for (edge, place, ty, val, is_oth) in enum_switch_edges(body):
+        if is_oth or ty.k != "adt":
+            continue
+        pth = ty.d["path"]
+        okv = 1 if pth.endswith("option::Option") else 0 if pth.endswith("result::Result") else None
+        if okv is None or val != okv:
+            continue
+        if pred(root_place(body, place)):
+            out.add(edge)
+    for bi, t in body.calls():
+        if not t["args"] or op_place(t["args"][0]) is None:
+            continue
+        pos = callee_is(t, "Try::branch", "ops::Try>::branch", "option::Option::is_some", "result::Result::is_ok")
+        neg = callee_is(t, "option::Option::is_none", "result::Result::is_err")
+        if not (pos or neg):
+            continue
+        r = root_place(body, op_place(t["args"][0]))
+        dr = deep_root(body, t["args"][0])
+        if not (pred(r) or (dr is not None and pred(dr))):
+            continue
+        oc = _success_edges_from(body, t["dest"]["l"]) if not t["dest"].get("p") else None
+        if oc is None:
+            continue
+        out |= (oc.ok_edges if pos else oc.err_edges)
+    return out
+
+
+def deep_root_through_try(body, op_or_place, depth=0):
+    """deep_root that also looks through `x?`: the payload of Try::branch(x) comes from x."""
+    r = deep_root(body, op_or_place)
+    if r is None or depth > 6:
+        return r
+    d = defuse(body).single_def(r["l"]) if not (1 <= r["l"] <= body.arg_count) else None
+    if d and d[0] == "call" and callee_is(d[2], "Try::branch", "ops::Try>::branch") and d[2]["args"] and op_place(d[2]["args"][0]) is not None:
+        return deep_root_through_try(body, d[2]["args"][0], depth + 1)
+    return r
 
 
 # ------------------------------------------------------------------ A5 gate functions
